@@ -241,11 +241,11 @@ theorem C14_read (asev : Inst → Sev) (f : List Inst) (hf : Conf f) (hq : Quiet
     and in place; every instance of the appended file is there, its id **and every reference at every depth** moved
     by the one offset `k = fileIdIncrOf maxFileId`; `k` is above every earlier id; the result is again a state in
     which the same holds for the next append.
-    `_partial`: EXCLUDED are files with a reference inside an aggregate that is an element of an aggregate
-    (`LIST OF LIST OF entity`, b_spline_surface.control_points_list) as long as the reader does not renumber the text
-    elements of such aggregates (`NestedOk`; on the code at hand: `C14_nested_site`, `C14_nested_aggregate_captures_witness`).
+    The form with the side condition `NestedOk` (a file with a reference inside an aggregate that is an element of an
+    aggregate needs the reader to renumber the text elements of such aggregates); the code at hand does (`C14_nested_site`), see
+    `C14_both_present` below for the statement without it; kept because it names exactly what the unrepaired reader got wrong.
     "complete" holds where the attribute-level reader reports nothing (`Quiet`). -/
-theorem C14_both_present_partial (asev : Inst → Sev) (s : Sess) (f : List Inst) (hs : Inv s) (hf : Conf f)
+theorem both_present_of_nestedOk (asev : Inst → Sev) (s : Sess) (f : List Inst) (hs : Inv s) (hf : Conf f)
     (hn : NestedOk f) (hq : Quiet asev f) :
     (appendExchange id asev s f).nodes = s.nodes ++ f.map (fun i => ⟨i.shift (fileIdIncrOf s.maxId), .complete⟩) ∧
     (∀ e ∈ ids s.nodes, e < fileIdIncrOf s.maxId) ∧
@@ -264,7 +264,7 @@ theorem C14_both_present_partial (asev : Inst → Sev) (s : Sess) (f : List Inst
 
 /-- the same with the lenient-mode substitution of C15 in place (`fill` may replace unset required values only); the state of
     each instance is what the severity the attribute-level reader reports for it maps to -/
-theorem C14_both_present_fill_partial (fill : Inst → Inst) (hfill : FillOk fill) (asev : Inst → Sev) (s : Sess) (f : List Inst)
+theorem both_present_fill_of_nestedOk (fill : Inst → Inst) (hfill : FillOk fill) (asev : Inst → Sev) (s : Sess) (f : List Inst)
     (hs : Inv s) (hf : Conf f) (hn : NestedOk f) :
     (appendExchange fill asev s f).nodes =
       s.nodes ++ f.map (fun i => ⟨fill (i.shift (fileIdIncrOf s.maxId)), exchangeStateOf (asev i)⟩) ∧
@@ -310,12 +310,12 @@ theorem no_capture_shift (s : Sess) (f : List Inst) (hs : Inv s) (hf : Conf f) :
 
 /-- No capture: in the session the append produces, no reference held by a node behind the earlier ones names an earlier
     instance — even when the file used the very same numbers — and every such reference names a node that came with the
-    appended file.  `_partial`: same exclusion as `C14_both_present_partial`. -/
-theorem C14_no_capture_partial (asev : Inst → Sev) (s : Sess) (f : List Inst) (hs : Inv s) (hf : Conf f)
+    appended file.  `_partial`: same exclusion as `both_present_of_nestedOk`. -/
+theorem no_capture_of_nestedOk (asev : Inst → Sev) (s : Sess) (f : List Inst) (hs : Inv s) (hf : Conf f)
     (hn : NestedOk f) (hq : Quiet asev f) :
     ∀ n ∈ (appendExchange id asev s f).nodes.drop s.nodes.length, ∀ r ∈ n.inst.refs,
       r ∉ ids s.nodes ∧ r ∈ ids ((appendExchange id asev s f).nodes.drop s.nodes.length) := by
-  rw [(C14_both_present_partial asev s f hs hf hn hq).1]
+  rw [(both_present_of_nestedOk asev s f hs hf hn hq).1]
   simp only [List.drop_left]
   intro n hnm r hr
   simp only [List.mem_map] at hnm
@@ -329,9 +329,9 @@ theorem C14_no_capture_partial (asev : Inst → Sev) (s : Sess) (f : List Inst) 
 def appendAll (asev : Inst → Sev) (s : Sess) (fs : List (List Inst)) : Sess := fs.foldl (appendExchange id asev) s
 
 /-- … every file's instances are present, earlier ones are never touched again (the session only grows at the end),
-    and the invariant — hence `C14_both_present_partial` and `C14_no_capture_partial` for the next append — holds throughout.
-    `_partial`: every file satisfies `NestedOk`. -/
-theorem C14_history_partial (asev : Inst → Sev) (s : Sess) (fs : List (List Inst)) (hs : Inv s) (hfs : ∀ f ∈ fs, Conf f)
+    and the invariant — hence `both_present_of_nestedOk` and `no_capture_of_nestedOk` for the next append — holds throughout.
+    Form with the side condition `NestedOk` for every file. -/
+theorem history_of_nestedOk (asev : Inst → Sev) (s : Sess) (fs : List (List Inst)) (hs : Inv s) (hfs : ∀ f ∈ fs, Conf f)
     (hns : ∀ f ∈ fs, NestedOk f) (hqs : ∀ f ∈ fs, Quiet asev f) :
     Inv (appendAll asev s fs) ∧ s.nodes <+: (appendAll asev s fs).nodes ∧
     (appendAll asev s fs).nodes.length = s.nodes.length + (fs.map List.length).sum := by
@@ -339,7 +339,7 @@ theorem C14_history_partial (asev : Inst → Sev) (s : Sess) (fs : List (List In
   | nil => exact ⟨hs, List.prefix_refl _, by simp [appendAll]⟩
   | cons f fs ih =>
     have hf := hfs f (by simp)
-    have h1 := C14_both_present_partial asev s f hs hf (hns f (by simp)) (hqs f (by simp))
+    have h1 := both_present_of_nestedOk asev s f hs hf (hns f (by simp)) (hqs f (by simp))
     have := ih (appendExchange id asev s f) h1.2.2 (fun g hg => hfs g (by simp [hg])) (fun g hg => hns g (by simp [hg]))
       (fun g hg => hqs g (by simp [hg]))
     simp only [appendAll, List.foldl_cons] at this ⊢
@@ -357,26 +357,29 @@ when one site drops the increment: it keeps its number as written and binds to t
 /-- the 14 call sites between the instance reader and `ReadEntityRef` hand the increment on … -/
 theorem C14_threading_complete : threading = allOnN threading.aggrNested := rfl
 
-/-- … and the 15th place a reference can stand in is not renumbered by the code at hand: `STEPaggregate::ReadValue`, the
-    reader of GenericAggregate (what exp2cxx makes of an aggregate of aggregates), keeps its elements as text and drops the
-    increment (`(void) addFileId;`).  To be flipped to `= true` when repair C14-1 is in (then `NestedOk` holds for every file
-    and the `_partial` theorems are the full statements). -/
-theorem C14_nested_site : threading.aggrNested = false := rfl
+/-- … and so does the 15th place a reference can stand in: `STEPaggregate::ReadValue`, the reader of GenericAggregate (what
+    exp2cxx makes of an aggregate of aggregates), keeps its elements as text and since repair C14-1 (3b478371) adds the increment
+    to every `#<digits>` of that text.  Before, it dropped it (`(void) addFileId;`, flag false); reverting the repair makes this fail. -/
+theorem C14_nested_site : threading.aggrNested = true := rfl
 
-/-- what that does (KNOWN_FINDINGS `append:nested-aggregate-reference-not-renumbered`): a reference inside an aggregate that is
-    an element of an aggregate keeps its number as written, whatever the offset and whatever the manager holds … -/
+/-- hence no file is excluded -/
+theorem nestedOk_all (f : List Inst) : NestedOk f := Or.inl C14_nested_site
+
+/-- what the code did before the repair (the audit's finding), stated for the reader with that one flag off: a reference inside an
+    aggregate that is an element of an aggregate keeps its number as written, whatever the offset and whatever the manager holds —
+    it names the EARLIER instance of that number -/
 theorem C14_nested_aggregate_captures_witness (ns : List Node) (k r : Int) (t : Val) :
     resolveValT (allOnN false) ns .top k (.aggr (.cons (.aggr (.cons (.ref r) t)) .nil)) =
       (.aggr (.cons (.aggr (.cons (.ref r) (t.mapRefs (· + 0)))) .nil), true) := by
   simp [resolveValT, thr, Val.mapRefs, allOnN]
 
-/-- … the audit's input: `#1=PT(11); #2=PT(12); #3=SURF(((#1,#2)),(#1,#2))` read and then appended to itself — the appended
-    SURF's flat list names #2001/#2002, its nested list still names #1/#2 of the EARLIER file -/
-theorem C14_nested_aggregate_file_witness :
+/-- the audit's input on the code at hand: `#1=PT(11); #2=PT(12); #3=SURF(((#1,#2)),(#1,#2))` read and then appended to itself —
+    the appended SURF's nested list names #2001/#2002 like its flat list (before the repair: `((#1,#2))`) -/
+theorem C14_nested_aggregate_file_example :
     let fA : List Inst := [⟨1, [⟨"PT", [.tok "11"]⟩], ""⟩, ⟨2, [⟨"PT", [.tok "12"]⟩], ""⟩,
       ⟨3, [⟨"SURF", [.aggr (.cons (.aggr (.cons (.ref 1) (.cons (.ref 2) .nil))) .nil), .aggr (.cons (.ref 1) (.cons (.ref 2) .nil))]⟩], ""⟩]
     ((appendExchange id noSev (readExchange id noSev fA) fA).nodes.map (·.inst)).drop 5 =
-      [⟨2003, [⟨"SURF", [.aggr (.cons (.aggr (.cons (.ref 1) (.cons (.ref 2) .nil))) .nil),
+      [⟨2003, [⟨"SURF", [.aggr (.cons (.aggr (.cons (.ref 2001) (.cons (.ref 2002) .nil))) .nil),
                          .aggr (.cons (.ref 2001) (.cons (.ref 2002) .nil))]⟩], ""⟩] := by
   decide
 
@@ -473,18 +476,55 @@ theorem C14_increment_not_reassigned :
 /-- the increment is a function of the file-level offset only: what an appended file becomes depends on the session it is
     appended to through `maxFileId` alone — two sessions with the same `maxFileId`, whatever they hold and whatever was read
     into them before, turn the same file into the same instances (ids and every reference at every depth) -/
-theorem C14_increment_function_of_max_partial (asev : Inst → Sev) (s₁ s₂ : Sess) (f : List Inst) (h₁ : Inv s₁) (h₂ : Inv s₂)
+theorem increment_function_of_max_of_nestedOk (asev : Inst → Sev) (s₁ s₂ : Sess) (f : List Inst) (h₁ : Inv s₁) (h₂ : Inv s₂)
     (hf : Conf f) (hn : NestedOk f) (hq : Quiet asev f) (h : s₁.maxId = s₂.maxId) :
     (appendExchange id asev s₁ f).nodes.drop s₁.nodes.length = (appendExchange id asev s₂ f).nodes.drop s₂.nodes.length := by
-  rw [(C14_both_present_partial asev s₁ f h₁ hf hn hq).1, (C14_both_present_partial asev s₂ f h₂ hf hn hq).1, h]
+  rw [(both_present_of_nestedOk asev s₁ f h₁ hf hn hq).1, (both_present_of_nestedOk asev s₂ f h₂ hf hn hq).1, h]
   simp
+
+/-! ### the property for the code at hand: no file excluded (`C14_nested_site`) -/
+
+/-- Appending ANY conforming file to a session in any reachable state: every earlier instance is still there, unchanged and in
+    place; every instance of the appended file is there, its id and every reference at every depth — inside aggregates of
+    aggregates too — moved by the one offset `k = fileIdIncrOf maxFileId`; `k` is above every earlier id; the invariant holds
+    again.  Complete where the attribute-level reader reports nothing (`Quiet`). -/
+theorem C14_both_present (asev : Inst → Sev) (s : Sess) (f : List Inst) (hs : Inv s) (hf : Conf f) (hq : Quiet asev f) :
+    (appendExchange id asev s f).nodes = s.nodes ++ f.map (fun i => ⟨i.shift (fileIdIncrOf s.maxId), .complete⟩) ∧
+    (∀ e ∈ ids s.nodes, e < fileIdIncrOf s.maxId) ∧
+    Inv (appendExchange id asev s f) :=
+  both_present_of_nestedOk asev s f hs hf (nestedOk_all f) hq
+
+theorem C14_both_present_fill (fill : Inst → Inst) (hfill : FillOk fill) (asev : Inst → Sev) (s : Sess) (f : List Inst)
+    (hs : Inv s) (hf : Conf f) :
+    (appendExchange fill asev s f).nodes =
+      s.nodes ++ f.map (fun i => ⟨fill (i.shift (fileIdIncrOf s.maxId)), exchangeStateOf (asev i)⟩) ∧
+    Inv (appendExchange fill asev s f) :=
+  both_present_fill_of_nestedOk fill hfill asev s f hs hf (nestedOk_all f)
+
+/-- No capture, any conforming file: in the session the append produces no reference held by a node behind the earlier ones
+    names an earlier instance, and every such reference names a node that came with the appended file. -/
+theorem C14_no_capture (asev : Inst → Sev) (s : Sess) (f : List Inst) (hs : Inv s) (hf : Conf f) (hq : Quiet asev f) :
+    ∀ n ∈ (appendExchange id asev s f).nodes.drop s.nodes.length, ∀ r ∈ n.inst.refs,
+      r ∉ ids s.nodes ∧ r ∈ ids ((appendExchange id asev s f).nodes.drop s.nodes.length) :=
+  no_capture_of_nestedOk asev s f hs hf (nestedOk_all f) hq
+
+theorem C14_history (asev : Inst → Sev) (s : Sess) (fs : List (List Inst)) (hs : Inv s) (hfs : ∀ f ∈ fs, Conf f)
+    (hqs : ∀ f ∈ fs, Quiet asev f) :
+    Inv (appendAll asev s fs) ∧ s.nodes <+: (appendAll asev s fs).nodes ∧
+    (appendAll asev s fs).nodes.length = s.nodes.length + (fs.map List.length).sum :=
+  history_of_nestedOk asev s fs hs hfs (fun f _ => nestedOk_all f) hqs
+
+theorem C14_increment_function_of_max (asev : Inst → Sev) (s₁ s₂ : Sess) (f : List Inst) (h₁ : Inv s₁) (h₂ : Inv s₂)
+    (hf : Conf f) (hq : Quiet asev f) (h : s₁.maxId = s₂.maxId) :
+    (appendExchange id asev s₁ f).nodes.drop s₁.nodes.length = (appendExchange id asev s₂ f).nodes.drop s₂.nodes.length :=
+  increment_function_of_max_of_nestedOk asev s₁ s₂ f h₁ h₂ hf (nestedOk_all f) hq h
 
 /-! ### hypotheses are satisfiable; the interesting case (identical ids in both files) is covered -/
 
 def exA : List Inst := [⟨1, [⟨"T0", [.tok "5", .ref 2]⟩], ""⟩, ⟨2, [⟨"T1", [.aggr (.cons (.ref 1) .nil)]⟩], ""⟩]
 
 example : Conf exA := ⟨by decide, by decide, by decide⟩
-example : NestedOk exA := Or.inr (by unfold FlatInst; decide)
+example : NestedOk exA := nestedOk_all exA
 example : (appendExchange id noSev (readExchange id noSev exA) exA).nodes.map (·.inst) =
     exA ++ [⟨2001, [⟨"T0", [.tok "5", .ref 2002]⟩], ""⟩, ⟨2002, [⟨"T1", [.aggr (.cons (.ref 2001) .nil)]⟩], ""⟩] := by decide
 
